@@ -98,6 +98,14 @@ FillN(i, batch) ==
     /\ pool' = [pool EXCEPT ![i] = DepositAll(pool[i], batch)]
     /\ ghost' = [ghost EXCEPT ![i] = GAddAll2(ghost[i], batch)]
 
+(* a call that must be refused: a value with one coordinate too few / too many, a scalar for a 2-axis or a vector for a  *)
+(* 1-axis histogram, weights of the wrong length.  The value lies at grid index k (possibly outside the present bins):   *)
+(* nothing may change, in particular no axis may have been extended before the call raised.                             *)
+FillRefused(i, k, how) ==
+    /\ Live /\ On("FillRefused") /\ Has(i)
+    /\ how \in {"fill_short", "fill_long", "fill_n_width", "fill_n_weights"}
+    /\ UNCHANGED <<pool, ghost>>
+
 (* k = i + j: bins are extended to the union of both ranges on the common grid, nothing is lost *)
 PlusA(a, b) ==
     [axes |-> [x \in 1..Len(a.axes) |-> UnionAxis(a.axes[x], b.axes[x])],
@@ -140,6 +148,7 @@ Next ==
     \/ \E k \in Ids, d \in Dims, b \in Prefills : NewFilled(k, d, b)
     \/ \E i \in Ids, cell \in [1..1 -> Indices] \cup [1..2 -> Indices], cls \in Classes, w \in Weights : Fill(i, cell, cls, w)
     \/ \E i \in Ids, b \in Batches : FillN(i, b)
+    \/ \E i \in Ids, k \in Indices, how \in {"fill_short", "fill_long", "fill_n_width", "fill_n_weights"} : FillRefused(i, k, how)
     \/ \E i, j, k \in Ids : Add(i, j, k)
     \/ \E i, j \in Ids : IAdd(i, j)
     \/ \E i, k \in Ids : Copy(i, k)
